@@ -78,4 +78,18 @@ PROPS = {
         "explanation": "theorems quantify over all pipes, payloads, hashes with 16-byte digests and registries; the numbers are the correspondence sample of this run",
         "timeout": {"quick": 600, "thorough": 3000},
     },
+    "C09": {
+        "runner": "c09",
+        "modules": ["Teleport.Props.C09"],
+        "rule": "cases drawn from VERIF_SEED: a registration history for the receiving peer (1-12 operations out of SubRoute to depth 3 / RouteCallFunc / RoutePushFunc / SetUnknownCall / SetUnknownPush with 0-2 plugins each, AppendLeft / AppendRight, Remove; half of the histories have all global operations first, half interleave them with routing), a history of global operations for the calling peer, one CALL (2/3) or PUSH (1/3) to a registered route (7/8) or an unregistered one, plugins of 14 distinct Go types = 14 subsets of the 16 per-message stage interfaces, scripted non-OK verdicts for up to 3 (plugin, stage) pairs per peer, handler status OK or not; deep shapes (three nested groups, sibling groups) 1 in 25; 9 fixed witness configurations run first; duplicate-name histories run in a child process. Every case runs two fresh real peers over one in-memory connection. distinct = distinct case line; non-trivial = the matched route's chain has >= 2 plugins or a veto fires",
+        "assumptions": [
+            "Model/Plugin is a hand-written model of plugin.go (containers, refresh, refreshTree, every per-message stage function), the container derivation in router.go and the stage call sites in session.go/context.go; tied to the code by comparing the recorded (plugin, stage) firing traces of both peers, the handler invocation, the written flag and the caller's status on every generated case",
+            "only the root container is reachable through the public API; AppendLeft/AppendRight/Remove on derived containers are not modelled",
+            "Go slice semantics of append(p.middle.GetAll(), plugins...) are modelled (in-place write into spare capacity, growslice capacities of the pinned Go 1.23 toolchain up to 128 elements); validated by the correspondence run",
+            "write failures, redial and timeouts are outside this model (C02/C13); registration happens before the connection is served",
+        ],
+        "trusted": ["Model/Plugin is a hand-written model of plugin.go, router.go (SubRoute, reg, SetUnknown*, getCall/getPush), session.go (AsyncCall, Push, startReadAndHandle stage calls), context.go (binding, bind*, handle*)"],
+        "explanation": "theorems quantify over all operation histories, plugin sets, stage subsets, verdict assignments and routes; the numbers are the correspondence sample; the oracle failures are real-code executions that contradict the property text",
+        "timeout": {"quick": 600, "thorough": 1800},
+    },
 }
